@@ -122,7 +122,7 @@ impl Engine for C03 {
         let prof = GenProfile::standard(32 * 1024);
         let c = corpus();
         let dict = if HAVE_REFERENCE && r.chance(1, 6) {
-            let d = r.pick(&[DictSpec::Repo, DictSpec::Trained { seed: 11, size: 4096 }, DictSpec::Trained { seed: 12, size: 1024 }]).clone();
+            let d = r.pick(&[DictSpec::Repo, DictSpec::Trained { seed: 11, size: 4096 }, DictSpec::TrainedRep { seed: 12, size: 1024, rep: [97, 2, 350] }]).clone();
             let dl = load_dict(&d).map(|x| x.raw.len()).unwrap_or(64);
             // entropy tables live in the first few hundred bytes; offsets right before the content
             let hot: Vec<usize> = (4..dl.min(400)).step_by(3).collect();
